@@ -123,7 +123,7 @@ fn corrupt_structural(raw: &mut RawFile, m: &ModelGame, d: &mut Dna, op: &'stati
 					raw.events[k].payload[4] = match d.u8() {
 						0..=99 => 4,
 						100..=149 => 255,
-						150..=199 => (raw.events[k].payload[4] + 1) % 4, // in range, possibly unoccupied
+						150..=199 => raw.events[k].payload[4].wrapping_add(1) % 4, // in range, possibly unoccupied
 						_ => d.u8(),
 					};
 				} else {
@@ -595,7 +595,7 @@ pub fn run(ctx: &Ctx) -> usize {
 	let cfg = cfg(ctx);
 	let other = other_file();
 	let stats = Stats { errors: Mutex::new(BTreeSet::new()) };
-	let cases = ctx.n(60_000, 3_000_000);
+	let cases = ctx.n(200_000, 10_000_000);
 	if run_dna(ctx, "dna", cases, 1536, |dna, counting| {
 		let c = gen_corrupted(dna, &cfg, &other);
 		let deep = dna.len() % 16 == 0;
